@@ -16,7 +16,7 @@ from kv.world import run_world  # noqa: E402
 cid, path, t0, t1 = sys.argv[1], sys.argv[2], float(sys.argv[3]), float(sys.argv[4])
 d = json.load(open(path))
 desc = copy.deepcopy(d['case']['desc'])
-if cid.upper() == 'C10':
+if cid.upper() == "C10":
     from kv.checks import c10
     c10._patch_callable_delay(desc)
 w = run_world(desc, capture_logs=True)
